@@ -359,6 +359,7 @@ type Engine struct {
 	model    map[string]string // non-nil: replay mode (concrete interpretation)
 	worldUsed bool
 	roDepth   int
+	updateFromVersion *T
 	harnessPkg string
 	nativeMode bool
 	feasCache map[[2]int]bool
